@@ -218,6 +218,23 @@ def multinomial_counts(ck):
         sm.set_current("beta", 0.3)
         rs = Resampler(sm, n_particles=n, resample="mult", clusterer=None, clustering=False)
 
+        # what exactly is drawn from?  (the interposer logs the arguments of np.random.choice)
+        with Tap(log=True) as tapc:
+            np.random.seed(1)
+            rs.run(w.copy())
+        pc = [e for e in tapc.log if e[0] == "choice"]
+        ck.event("np.random.choice calls inspected")
+        if pc:
+            a, k = pc[0][2], pc[0][3]
+            pv = k.get("p", a[3] if len(a) > 3 else None)
+            rep = k.get("replace", a[2] if len(a) > 2 else True)
+            sz = k.get("size", a[1] if len(a) > 1 else None)
+            if pv is None or len(pv) != m or np.any((np.asarray(pv) > 0) != (w > 0)) or not np.allclose(pv, w, rtol=1e-12, atol=0):
+                ck.violation("mult-probabilities", "the multinomial scheme does not draw with p = the weight vector it was given "
+                             f"(zero-weight entries with positive probability: {int(np.sum((np.asarray(pv) > 0) & (w == 0))) if pv is not None and len(pv) == m else 'n/a'})", dict(m=m, n=n))
+            if rep is False or (sz is not None and int(np.prod(sz)) != n):
+                ck.violation("mult-draw-shape", f"np.random.choice called with replace={rep}, size={sz} for n={n}", dict(m=m, n=n))
+
         def pooled(reps, seed):
             np.random.seed(seed)
             cnt = np.zeros(m)
